@@ -21,6 +21,8 @@ NameShapes ==
     b256     |-> Rep(<<97>>, 256),
     b254p2   |-> Rep(<<97>>, 254) \o <<<<195, 169>>>>,                      \* 256 bytes, cut inside a 2-byte char
     b253p4   |-> Rep(<<97>>, 253) \o <<<<240, 159, 152, 128>>>>,            \* 257 bytes, cut inside a 4-byte char
+    b253p2   |-> Rep(<<97>>, 253) \o <<<<195, 169>>>>,                      \* exactly 255 bytes, ends in a complete 2-byte char
+    b251p4   |-> Rep(<<97>>, 251) \o <<<<240, 159, 152, 128>>>>,            \* exactly 255 bytes, ends in a complete 4-byte char
     b300     |-> Rep(<<98>>, 300) ]
 Shapes == DOMAIN NameShapes
 
